@@ -250,6 +250,7 @@ def producers():
         ("tx.limit_fanin", lambda c: tx.limit_fanin(c, 2)),
         ("tx.limit_fanout", lambda c: tx.limit_fanout(c, 2)),
         ("tx.ternary", lambda c: tx.ternary(c)[0]),
+        ("tx.ternary(companion names taken)", _ternary_taken),
         ("tx.miter", lambda c: tx.miter(c)),
         ("tx.miter2", lambda c: tx.miter(c, c.copy())),
         ("tx.unroll", lambda c: tx.unroll(c, 2, {})[0]),
@@ -368,6 +369,20 @@ def _ru_flop(c):
     cg.lint(r)
     r.remove_unloaded()
     return r
+
+
+def _ternary_taken(c):
+    """ternary on a circuit in which the names it would give the companions (<n>_X) already belong to other nodes."""
+    import circuitgraph as cg
+
+    ins = sorted(c.inputs())
+    gates = sorted(n for n in c.nodes() if c.type(n) not in ("input", "0", "1", "x"))
+    if not ins or not gates:
+        raise _Skip()
+    ren = {gates[0]: f"{ins[0]}_X"}
+    if len(gates) > 1:
+        ren[gates[1]] = f"{ins[0]}_X_X"
+    return cg.tx.ternary(cg.tx.relabel(c, ren))[0]
 
 
 def _two_drivers(c, how):
